@@ -46,6 +46,14 @@ def check_lock_order(eng, prover, name, x, ctx):
 
 
 def run_task(eng, prover, task, out):
+    try:
+        _run_task(eng, prover, task, out)
+    except Unsupported as e:
+        # a construct outside the executed subset is never a verdict
+        out["unsupported"].append({"instance": f"{task['cname']}.{task['what']}/root", "reason": str(e)})
+
+
+def _run_task(eng, prover, task, out):
     what = task["what"]
     cname = task["cname"]
     P = eng.P
